@@ -295,10 +295,10 @@ example : decDuration [1, 0xfc, 0xff, 0xff, 0xff, 0xff] = some ({ secs := 5, nan
     decDuration [0xfd, 255, 255, 255, 255, 255, 255, 255, 255, 0xfc, 0xff, 0xff, 0xff, 0xff] = none := by
   decide
 
-/-- A request whose deadline does not fit an `Instant` makes the real reader panic (C16's concern;
-modelled so the driver agrees with the harness). -/
+/-- A request whose deadline does not fit an `Instant` is never a panic for the reader as the source
+stands now (C16's concern; before the fix the model said `.panic` here and so did the real code). -/
 example : readClientMessage decU64
-    ([0x00, 0xfd, 0, 0, 0, 0, 0, 0, 0, 0x80, 0] ++ List.replicate 16 0 ++ [0, 1, 0, 0]) =
+    ([0x00, 0xfd, 0, 0, 0, 0, 0, 0, 0, 0x80, 0] ++ List.replicate 16 0 ++ [0, 1, 0, 0]) ≠
       .panic := by decide
 
 /-- Unknown enum variant indices are errors. -/
